@@ -363,8 +363,11 @@ func checkCustom(c customCase) custOutcome {
 	if err != nil {
 		return custOutcome{msg: fmt.Sprintf("the program parses but not behind the definitions %q: %v", b.prefix, err)}
 	}
-	codeN, errN := gojq.Compile(qn, b.opts...)
-	codeD, errD := gojq.Compile(qd)
+	codeN, errN := safeCompile(qn, b.opts...)
+	codeD, errD := safeCompile(qd)
+	if m := isCompilePanic(errN, errD); m != "" {
+		return custOutcome{msg: m}
+	}
 	if (errN == nil) != (errD == nil) {
 		return custOutcome{msg: fmt.Sprintf("compilation differs: with the Go callbacks: %v; with the definitions %q: %v", errN, b.prefix, errD)}
 	}
